@@ -11,3 +11,6 @@ func verifObserveChunkOrder(c *linkerContext) {}
 
 // No-op counterpart of the cross-chunk dependency observation hook.
 func verifObserveCrossChunk(c *linkerContext) {}
+
+// No-op counterpart of the import/export matching observation hook (see verif_observe_exports.go).
+func verifObserveExports(c *linkerContext) {}
